@@ -161,9 +161,21 @@ pub struct Knobs {
     pub q_legacy: Option<bool>,
     /// runtime for every rustrtc task of endpoint P (resource measurement per endpoint)
     pub p_runtime: Option<tokio::runtime::Handle>,
+    /// `rtp_start_port ..= rtp_end_port` configured on BOTH endpoints (they share the range on one host)
+    pub rtp_port_range: Option<(u16, u16)>,
 }
 impl Default for Knobs {
-    fn default() -> Self { Knobs { ice_disconnect_threshold: None, ice_disconnect_grace: None, ice_connection_timeout: None, sctp_max_buffered: None, sctp_heartbeat: None, q_legacy: None, p_runtime: None } }
+    fn default() -> Self { Knobs { ice_disconnect_threshold: None, ice_disconnect_grace: None, ice_connection_timeout: None, sctp_max_buffered: None, sctp_heartbeat: None, q_legacy: None, p_runtime: None, rtp_port_range: None } }
+}
+
+/// an even port P in 20000..30000 (below the ephemeral range) such that P, P+1, P+2, P+3 are free right now (UDP, loopback)
+pub fn free_even_udp_pair(seed: u64) -> Option<u16> {
+    for i in 0..400u64 {
+        let p = 20000 + (((seed.wrapping_mul(6364136223846793005).wrapping_add(i * 7919)) % 4998) * 2) as u16;
+        let socks: Vec<_> = (0..4u16).map(|d| std::net::UdpSocket::bind(("127.0.0.1", p + d))).collect();
+        if socks.iter().all(|s| s.is_ok()) { drop(socks); return Some(p); }
+    }
+    None
 }
 
 fn free_tcp_port() -> u16 {
@@ -200,6 +212,7 @@ pub fn rtc_config(c: &Cfg, is_p: bool, k: &Knobs) -> RtcConfiguration {
     if let Some(n) = k.sctp_max_buffered { r.sctp_max_buffered_amount = n; }
     if let Some((d, f, a)) = k.sctp_heartbeat { r.sctp_heartbeat_interval = d; r.sctp_max_heartbeat_failures = f; r.sctp_max_association_retransmits = a; }
     if is_p && let Some(h) = &k.p_runtime { r.runtime_handle = Some(h.clone()); }
+    if let Some((a, b)) = k.rtp_port_range { r.rtp_start_port = Some(a); r.rtp_end_port = Some(b); }
     r
 }
 
